@@ -76,6 +76,9 @@ pub enum Damage {
         #[serde(with = "hexser::bytes")]
         bytes: Vec<u8>,
     },
+    /// Add `delta` to the big-endian (or little-endian) integer of `width` bytes at `off`: a length or
+    /// count field that announces a little more than there is.
+    AddInt { off: u32, width: u8, delta: u64, le: bool },
 }
 
 impl Damage {
@@ -89,6 +92,7 @@ impl Damage {
             Damage::Dup { .. } => "splice_duplicate",
             Damage::Swap { .. } => "splice_swap",
             Damage::Append { .. } => "append_trailing",
+            Damage::AddInt { .. } => "length_field_increment",
         }
     }
 
@@ -152,6 +156,26 @@ impl Damage {
                 }
             }
             Damage::Append { bytes } => b.extend_from_slice(bytes),
+            Damage::AddInt { off, width, delta, le } => {
+                let w = (*width as usize).clamp(1, 8);
+                if n >= w {
+                    let at = *off as usize % (n - w + 1);
+                    let mut v: u64 = 0;
+                    for i in 0..w {
+                        let byte = if *le { b[at + w - 1 - i] } else { b[at + i] };
+                        v = (v << 8) | byte as u64;
+                    }
+                    v = v.wrapping_add(*delta);
+                    for i in 0..w {
+                        let byte = (v >> (8 * (w - 1 - i))) as u8;
+                        if *le {
+                            b[at + w - 1 - i] = byte;
+                        } else {
+                            b[at + i] = byte;
+                        }
+                    }
+                }
+            }
         }
     }
 }
